@@ -38,6 +38,14 @@ pub fn corpus_cases(prop: &str) -> Vec<Vec<String>> {
     cases
 }
 
+/// `catch_unwind` mapped into the answer classes.
+pub fn hx_catch<X>(f: impl FnOnce() -> Result<X, String>) -> Result<X, String> {
+    match hx_common::catch(f) {
+        Ok(r) => r,
+        Err(_) => Err("panic".to_string()),
+    }
+}
+
 fn main() {
     let argv: Vec<String> = std::env::args().collect();
     if argv.get(1).map(|s| s == "__child").unwrap_or(false) {
